@@ -37,6 +37,8 @@ class AbstractDiscreteTimeOfflineInterpreter(AbstractOfflineInterpreter, Discret
         # Check if the difference between two consecutive timestamps is between
         # the accepted tolerance - if not, increase the violation counter
         ts = dataset['time']
+        # every evaluate() is a run of its own: count the gaps of this time column only
+        self.sampling_violation_counter = 0
         for i in range(len(ts) - 1):
             duration = (ts[i+1] - ts[i]) * self.normalize
             self.update_sampling_violation_counter(duration)
